@@ -48,8 +48,11 @@ fn pinned_header(restrict: u8) {
     assert!(refuses || equal, "clone proceeds although the supplied header checksum differs from the archive's");
     // and an equal checksum is accepted
     assert!(!(refuses && equal));
-    kani::cover!(!refuses);
-    kani::cover!(refuses && expected.sum[0] == actual.sum[0]);
+    if restrict != 2 {
+        kani::cover!(!refuses);
+    }
+    // refused although the first bytes agree
+    kani::cover!(refuses && expected.length > 1 && expected.sum[0] == actual.sum[0] && expected.sum[1] == actual.sum[1]);
 }
 #[kani::proof]
 #[kani::unwind(66)]
